@@ -93,6 +93,17 @@ CLAIMED = {
         note="Recorded findings (GMRF with periodic/neumann bc: shape uses len(x) instead of the rank; legacy Conjugate without structural "
              "validation) are excluded and counted.",
         design="3/C10"),
+    "C11": dict(
+        technique="Hypothesis RuleBasedStateMachine (stateful testing) over a pool of objects with behavioural fingerprints; invariant checked after every rule; failing histories shrunk and replayed as JSON operation lists",
+        text="The machine starts from a generated model graph (C01 grammar plus an implicitly regularised Gaussian option) and applies "
+             "generated interleavings of condition (subset, positional/keyword), logd, gradient, sample, to_likelihood, model application, "
+             "200-fold (thorough: 1000-fold) re-conditioning loops and short MH/CWMH/NUTS/HybridGibbs/legacy Gibbs runs on any pooled "
+             "object, adding every derived object to the pool. After every step every pooled object must still show the fingerprint taken "
+             "at its creation (logd and gradient at fixed assignments, parameter names, conditioning variables, name, dim, geometry type, "
+             "seeded samples, model forward values and argument names), and conditioned copies must report their original's name.",
+        note="Explicit mutators (enable_FD, attribute assignment) are not rules; cosmetic geometry variable labels are not part of the "
+             "fingerprint. 25 (quick) / 50 (thorough) steps per history.",
+        design="3/C11"),
     "C12": dict(
         technique="Hypothesis property tests: metamorphic relation across input representations against a harness-computed reference + finite-difference Jacobian oracle + required-refusal checks",
         text="For generated models (Jacobian, direction-Jacobian, derivative-free, linear from matrix/function pair) over generated "
